@@ -1418,6 +1418,11 @@ def stage_cases(ctx, kind_i, m, n, n_inputs, flags):
         yield ("corr", "combine", [un_psbt(objs[1]), un_psbt(objs[0])])
     yield ("corr", "combine", [un_psbt(objs[0]), un_psbt(reparse(base))])
     yield ("corr", "combine", [un_psbt(reparse(base)), un_psbt(objs[0])])
+    # the Creator's bare PSBT (no update) as accumulator and as argument
+    bare = PSBT.create(Tx.parse(BytesIO(p.tx_obj.serialize_legacy()), network="mainnet")).serialize()
+    for other in (base, signed[-1]):
+        yield ("corr", "combine", [un_psbt(reparse(bare)), un_psbt(reparse(other))])
+        yield ("corr", "combine", [un_psbt(reparse(other)), un_psbt(reparse(bare))])
     full = reparse(combine_bytes(base, signed))
     yield ("corr", "validate", [un_psbt(full), oracle_table(full)])
     yield ("corr", "finalize", [un_psbt(full)])
